@@ -101,10 +101,32 @@ fn check_spellings(c: &(PepV, Vec<Spelling>), cx: &mut Cx) -> Res {
 
 /// pairs differing in exactly one field (deciding component deep in the key)
 fn related() -> BoxedStrategy<(PepV, PepV)> {
-    (gens::pep::pepv(4), gens::pep::pepv(4), 0usize..7)
-        .prop_map(|(a, d, f)| {
+    (gens::pep::pepv(4), gens::pep::pepv(4), 0usize..9, any::<prop::sample::Index>(), gens::pick(&["a", "z", "0", "9", "1"]))
+        .prop_map(|(mut a, d, f, at, ch)| {
+            if f >= 7 {
+                // one local segment changed in its last character / lengthened by one character
+                // (the deciding character may lie far behind the 40th)
+                if a.local.is_none() {
+                    a.local = d.local.clone().or(Some(vec!["x".into()]));
+                }
+            }
             let mut b = a.clone();
             match f {
+                7 | 8 => {
+                    let l = b.local.as_mut().unwrap();
+                    let i = at.index(l.len());
+                    let mut seg = l[i].clone();
+                    if f == 7 && seg.len() > 1 {
+                        seg.pop();
+                    }
+                    seg.push_str(ch);
+                    // keep numeric segments canonical
+                    if seg.bytes().all(|c| c.is_ascii_digit()) {
+                        let t = seg.trim_start_matches('0');
+                        seg = if t.is_empty() { "0".into() } else { t.into() };
+                    }
+                    l[i] = seg;
+                }
                 0 => b.epoch = d.epoch,
                 1 => b.release = d.release,
                 2 => b.pre = d.pre,
@@ -119,6 +141,39 @@ fn related() -> BoxedStrategy<(PepV, PepV)> {
             (a, b)
         })
         .boxed()
+}
+
+/// the greatest PEP 440 tag on a commit, through the real binary and a real repository
+fn check_git_max(c: &crate::props::c10::GitTagsCase, cx: &mut Cx) -> Res {
+    let (repo, made) = match crate::gitlab::repo_with_tags(&c.tags, c.decoy, c.commits_after) {
+        Ok(x) => x,
+        Err(e) => {
+            infra(format!("cannot build the repository: {e}"));
+            return Ok(());
+        }
+    };
+    if made.is_empty() {
+        return Ok(());
+    }
+    let o = crate::proc::run(&crate::proc::Spec { args: crate::cli::sv(&["version", "-C", &repo.path(), "--input-format", "pep440", "--output-format", "zerv"]), cwd: Some("/".into()), ..Default::default() });
+    if o.timed_out {
+        infra("zerv timed out");
+        return Ok(());
+    }
+    cx.nt_if(made.len() >= 2);
+    cx.label_if(c.decoy.is_some(), "branch-named-like-a-tag");
+    ensure!(o.code == Some(0), "zerv failed (exit {:?}: {}) on a commit tagged {made:?}", o.code, o.err_str().trim().chars().take(300).collect::<String>());
+    let z = <zerv::version::Zerv as std::str::FromStr>::from_str(&o.out_str()).map_err(|e| Bad::Fail(format!("output does not parse: {e}")))?;
+    let got = z.vars.last_tag_version.clone().unwrap_or_default();
+    cx.note(|| format!("{made:?} (decoy {:?}) -> {got}", c.decoy));
+    ensure!(made.contains(&got), "last_tag_version {got:?} is not one of the tags {made:?}");
+    let g = opep::parse(&got).ok_or_else(|| Bad::Fail(format!("chosen tag {got:?} is not PEP 440")))?;
+    for t in &made {
+        if let Some(o) = opep::parse(t) {
+            ensure!(opep::cmp(&o, &g) != Ordering::Greater, "zerv chose {got} on a commit tagged {made:?}, but {t} is greater ({})", repo.log.join("; "));
+        }
+    }
+    Ok(())
 }
 
 pub fn property() -> Property {
@@ -241,11 +296,23 @@ pub fn property() -> Property {
         },
     )
     .floor(0.5);
+    let git_max = RandomSub::<crate::props::c10::GitTagsCase>::new(
+        "git-max-tag",
+        (150, 2_500),
+        |_| {
+            let tag = || (0..1800usize, any::<u64>()).prop_map(|(i, b)| gens::pep::spell(&universe()[i], &Spelling::from_bits(b), true));
+            (proptest::collection::vec(prop_oneof![3 => tag(), 1 => (gens::pep::pepv(3), gens::pep::spelling()).prop_map(|(p, s)| gens::pep::spell(&p, &s, false))], 1..6), proptest::option::weighted(0.4, 0usize..6), 0u8..2)
+                .prop_map(|(tags, decoy, commits_after)| crate::props::c10::GitTagsCase { tags, decoy, commits_after, auto: false })
+                .boxed()
+        },
+        check_git_max,
+    )
+    .shrink_iters(40);
     Property {
         id: "C11",
         rule: "cases = ordered pairs / triples of PEP 440 strings, spelling sets of one version, tag lists. Exhaustive: all 1800^2 ordered pairs of a field universe, each side in an index-derived spelling (case, separators, alternative labels, leading zeros, v prefix, explicit 0!, implicit numbers, trailing .0 release numbers); random: numbers to u32::MAX, pairs differing in one field. Oracle: the key stated in C11 on digit strings; laws (antisymmetry, transitivity, == iff Equal, spellings equal) checked without it. Non-trivial = strings of the pair/triple differ (pairwise for triples), spelling sets with >=2 distinct strings, tag lists with >=2 tags; distinct = distinct tuples.",
         assumptions: vec!["numbers <= u32::MAX (the parser's documented range); numeric local segments <= u32::MAX"],
-        subs: vec![pairs.boxed(), spell_enum.boxed(), rand_pairs.boxed(), triples.boxed(), rand_spell.boxed(), max_tag.boxed()],
+        subs: vec![pairs.boxed(), spell_enum.boxed(), rand_pairs.boxed(), triples.boxed(), rand_spell.boxed(), max_tag.boxed(), git_max.boxed()],
         known_repro: vec![],
     }
 }
